@@ -49,6 +49,22 @@ type gTableSpec struct {
 	weight ast.Expr
 }
 
+type gDigit struct {
+	name string
+	idx  int
+}
+type gSelIndex struct{ bits *gBits }           // bits - 1 used as a table index
+type gEntry struct {                           // coordinate array of the table entry selected by bits (bits >= 1)
+	t     *gTable
+	coord int64
+	bits  *gBits
+}
+type gBitsNonzero struct{ bits *gBits }        // the condition bits > 0 / bits != 0
+type gZeroIff struct {                         // a boolean that is true exactly when all the named symbols are zero
+	z   map[string]bool
+	neg bool
+}
+
 type gexpFail struct{ msg string }
 type gexpWrong struct{ msg string } // the body is understood and does not compute the stated multiple
 
@@ -58,6 +74,8 @@ type gInterp struct {
 	syms   map[string]*Term
 	depth  int
 	steps  int
+	nafWidth int64
+	nafDigits int
 	byteLoop bool // a range loop over the scalar was proved by induction: the expected result is [V]Base
 }
 
@@ -84,6 +102,7 @@ type gFrame struct {
 	brk    bool
 	cont   bool
 	scalar types.Object
+	condSyms []map[string]bool // symbols of the enclosing `if bits > 0` tests
 }
 
 func (f *gFrame) pos(p token.Pos) string {
@@ -164,7 +183,15 @@ func (f *gFrame) eval(e ast.Expr) interface{} {
 	case *ast.UnaryExpr:
 		switch x.Op {
 		case token.NOT:
-			return !f.eval(x.X).(bool)
+			v := f.eval(x.X)
+			if z, ok := v.(*gZeroIff); ok {
+				return &gZeroIff{z: z.z, neg: !z.neg}
+			}
+			b, ok := v.(bool)
+			if !ok {
+				f.gi.fail("%s: ! of a symbolic condition", f.pos(x.Pos()))
+			}
+			return !b
 		case token.SUB:
 			return -f.eval(x.X).(int64)
 		case token.AND:
@@ -208,7 +235,11 @@ func (f *gFrame) eval(e ast.Expr) interface{} {
 				return &gBits{out}
 			case token.GTR, token.NEQ:
 				if n == 0 {
-					return "nonzero?" // handled by the caller patterns
+					return &gBitsNonzero{lb}
+				}
+			case token.SUB:
+				if n == 1 {
+					return &gSelIndex{lb}
 				}
 			}
 			f.gi.fail("%s: operation %s on symbolic bits not modelled", f.pos(x.Pos()), x.Op)
@@ -278,7 +309,17 @@ func (f *gFrame) eval(e ast.Expr) interface{} {
 		f.gi.fail("%s: expression %s not modelled", f.pos(x.Pos()), exprString(e))
 	case *ast.IndexExpr:
 		b := f.eval(x.X)
-		i, ok := f.eval(x.Index).(int64)
+		iv := f.eval(x.Index)
+		if si, ok := iv.(*gSelIndex); ok {
+			if t, ok := b.(*gTable); ok {
+				spec := f.gi.tables[t.name]
+				if spec != nil && len(t.idx) == spec.dims+1 {
+					return &gEntry{t: &gTable{t.name, t.idx[:spec.dims]}, coord: t.idx[spec.dims], bits: si.bits}
+				}
+			}
+			f.gi.fail("%s: symbolic index into something that is not a table row", f.pos(x.Pos()))
+		}
+		i, ok := iv.(int64)
 		if !ok {
 			f.gi.fail("%s: symbolic index %s", f.pos(x.Pos()), exprString(x.Index))
 		}
@@ -287,7 +328,7 @@ func (f *gFrame) eval(e ast.Expr) interface{} {
 			return &gTable{v.name, append(append([]int64{}, v.idx...), i)}
 		case *gArr:
 			if i < 0 || int(i) >= len(v.e) {
-				f.gi.fail("%s: index %d out of range", f.pos(x.Pos()), i)
+				panic(gexpWrong{fmt.Sprintf("%s: index %d out of range of an array of %d (the code would panic here)", f.pos(x.Pos()), i, len(v.e))})
 			}
 			return v.e[i]
 		}
@@ -492,6 +533,35 @@ func (f *gFrame) call(c *ast.CallExpr) []interface{} {
 		return []interface{}{"error"}
 	case "NewSM2Point":
 		return []interface{}{&gPoint{zeroPoly()}}
+	case "NewFromXY":
+		ex, ok1 := f.eval(c.Args[0]).(*gEntry)
+		ey, ok2 := f.eval(c.Args[1]).(*gEntry)
+		if !ok1 || !ok2 || ex.t.name != ey.t.name || fmt.Sprint(ex.t.idx) != fmt.Sprint(ey.t.idx) || ex.coord != 0 || ey.coord != 1 || ex.bits != ey.bits {
+			f.gi.fail("%s: NewFromXY of something other than the x and y rows of one table entry", f.pos(c.Pos()))
+		}
+		ws := f.tableWeights(ex.t, c.Pos())
+		acc := zeroPoly()
+		for i, b := range ex.bits.b {
+			if i < len(ws) {
+				acc = polyAdd(acc, polyScale(b, ws[i]))
+			} else if len(b.ms) != 0 {
+				f.gi.fail("%s: selection bits wider than the table's window", f.pos(c.Pos()))
+			}
+		}
+		return []interface{}{&gPoint{acc}}
+	case "utils.DecomposeNAF":
+		arr, ok := f.eval(c.Args[0]).(*gArr)
+		n, ok2 := f.eval(c.Args[2]).(int64)
+		if _, isS := f.eval(c.Args[1]).(gScalar); !ok || !ok2 || !isS || int64(len(arr.e)) != n {
+			f.gi.fail("%s: DecomposeNAF call not of the modelled form (digits array of length n, scalar, n, w)", f.pos(c.Pos()))
+		}
+		w, _ := f.eval(c.Args[3]).(int64)
+		f.gi.nafWidth = w
+		for i := range arr.e {
+			arr.e[i] = &gDigit{name: fmt.Sprintf("d%d", i), idx: i}
+		}
+		f.gi.nafDigits = len(arr.e)
+		return nil
 	case "extractHigherBits":
 		idx, window, step := f.eval(c.Args[1]).(int64), f.eval(c.Args[2]).(int64), f.eval(c.Args[3]).(int64)
 		var out []*Poly
@@ -601,12 +671,233 @@ func (gi *gInterp) run(fi *FuncInfo, args []interface{}, pre func(*gFrame)) []in
 }
 
 func (f *gFrame) block(b *ast.BlockStmt) {
-	for _, s := range b.List {
+	for i, s := range b.List {
 		if f.done || f.brk || f.cont {
 			return
 		}
+		// `d := digits[i]` with a symbolic signed-window digit: case analysis over the digit set on the rest of the block
+		if as, ok := s.(*ast.AssignStmt); ok && len(as.Rhs) == 1 && len(as.Lhs) == 1 {
+			if ix, ok := unparen(as.Rhs[0]).(*ast.IndexExpr); ok {
+				if arr, ok := f.tryEval(ix.X).(*gArr); ok {
+					if j, ok := f.tryEval(ix.Index).(int64); ok && j >= 0 && int(j) < len(arr.e) {
+						if d, ok := arr.e[j].(*gDigit); ok {
+							f.splitDigit(as, d, b.List[i+1:])
+							return
+						}
+					}
+				}
+			}
+		}
 		f.stmt(s)
 	}
+}
+
+// tryEval evaluates an expression, returning nil instead of failing.
+func (f *gFrame) tryEval(e ast.Expr) (v interface{}) {
+	defer func() {
+		if r := recover(); r != nil {
+			if _, ok := r.(gexpFail); ok {
+				v = nil
+				return
+			}
+			panic(r)
+		}
+	}()
+	return f.eval(e)
+}
+
+type gSnap struct {
+	points map[*gPoint]*Poly
+	vars   map[types.Object]interface{}
+}
+
+func (f *gFrame) snapshot() *gSnap {
+	sn := &gSnap{points: map[*gPoint]*Poly{}, vars: map[types.Object]interface{}{}}
+	var collect func(v interface{})
+	collect = func(v interface{}) {
+		switch y := v.(type) {
+		case *gPoint:
+			sn.points[y] = y.e
+		case *gArr:
+			for _, e := range y.e {
+				collect(e)
+			}
+		case *gPtr:
+			collect(*y.to)
+		}
+	}
+	for o, p := range f.vars {
+		collect(*p)
+		sn.vars[o] = *p
+	}
+	return sn
+}
+
+func (f *gFrame) restore(sn *gSnap) {
+	for p, e := range sn.points {
+		p.e = e
+	}
+	for o := range f.vars {
+		if v, ok := sn.vars[o]; ok {
+			*f.vars[o] = v
+		} else {
+			delete(f.vars, o)
+		}
+	}
+	f.cont, f.brk = false, false
+}
+
+// polyDrop substitutes 0 for the named symbols.
+func polyDrop(p *Poly, zero map[string]bool) *Poly {
+	var ms []mono
+	for _, m := range p.ms {
+		keep := true
+		for _, a := range m.atoms {
+			if zero[strings.TrimPrefix(a.Name, "gexp$")] {
+				keep = false
+				break
+			}
+		}
+		if keep {
+			ms = append(ms, m)
+		}
+	}
+	return mkPoly(ms)
+}
+
+func bitsSyms(b *gBits) map[string]bool {
+	out := map[string]bool{}
+	for _, p := range b.b {
+		for _, m := range p.ms {
+			for _, a := range m.atoms {
+				out[strings.TrimPrefix(a.Name, "gexp$")] = true
+			}
+		}
+	}
+	return out
+}
+
+func unionSyms(a, b map[string]bool) map[string]bool {
+	out := map[string]bool{}
+	for k := range a {
+		out[k] = true
+	}
+	for k := range b {
+		out[k] = true
+	}
+	return out
+}
+
+func sameFlag(a, b interface{}) bool {
+	switch x := a.(type) {
+	case bool:
+		y, ok := b.(bool)
+		return ok && x == y
+	case *gZeroIff:
+		y, ok := b.(*gZeroIff)
+		if !ok || x.neg != y.neg || len(x.z) != len(y.z) {
+			return false
+		}
+		for k := range x.z {
+			if !y.z[k] {
+				return false
+			}
+		}
+		return true
+	}
+	return false
+}
+
+// splitDigit: `lhs := digits[i]` followed by rest, for a symbolic signed-window digit d in {0, +-1, +-3, ..., +-(2^w - 1)}.
+// The rest of the block is executed once per digit value; the accumulators must depend linearly on the value
+// (result(v) = result(0) + v * K), which gives the merged result result(0) + d * K; a flag that is cleared exactly
+// when d != 0 becomes "true iff (its previous condition and d == 0)".
+func (f *gFrame) splitDigit(as *ast.AssignStmt, d *gDigit, rest []ast.Stmt) {
+	w := f.gi.nafWidth
+	if w <= 0 || w > 7 {
+		f.gi.fail("%s: digit width unknown", f.pos(as.Pos()))
+	}
+	vals := []int64{0}
+	for v := int64(1); v < int64(1)<<uint(w); v += 2 {
+		vals = append(vals, v, -v)
+	}
+	pre := f.snapshot()
+	type res struct {
+		pts  map[*gPoint]*Poly
+		vars map[types.Object]interface{}
+	}
+	results := map[int64]*res{}
+	for _, v := range vals {
+		f.restore(pre)
+		f.assign(as.Lhs[0], v, as.Tok == token.DEFINE)
+		for _, st := range rest {
+			if f.done || f.brk || f.cont {
+				break
+			}
+			f.stmt(st)
+		}
+		if f.done || f.brk {
+			f.gi.fail("%s: return/break under a symbolic digit", f.pos(as.Pos()))
+		}
+		r := &res{pts: map[*gPoint]*Poly{}, vars: map[types.Object]interface{}{}}
+		for p := range pre.points {
+			r.pts[p] = p.e
+		}
+		for o := range pre.vars {
+			r.vars[o] = *f.vars[o]
+		}
+		results[v] = r
+	}
+	f.restore(pre)
+	dsym := f.gi.sym(d.name)
+	base, unit := results[0], results[1]
+	for p := range pre.points {
+		K := polySub(unit.pts[p], base.pts[p])
+		for _, v := range vals {
+			want := polyAdd(base.pts[p], polyScale(K, big.NewInt(v)))
+			if len(polySub(results[v].pts[p], want).ms) != 0 {
+				panic(gexpWrong{fmt.Sprintf("%s: for the digit value %d the accumulator is [%s]; digit 0 gives [%s] and digit 1 adds [%s], so %d should add %d times that", f.pos(as.Pos()), v, gexpPolyString(results[v].pts[p]), gexpPolyString(base.pts[p]), gexpPolyString(K), v, v)})
+			}
+		}
+		p.e = polyAdd(base.pts[p], polyMul(dsym, K))
+	}
+	for o, v0 := range pre.vars {
+		switch v0.(type) {
+		case bool, *gZeroIff:
+		default:
+			continue
+		}
+		b0 := base.vars[o]
+		bn := unit.vars[o]
+		for _, v := range vals[1:] {
+			if !sameFlag(results[v].vars[o], bn) {
+				f.gi.fail("%s: a flag depends on the digit value beyond zero/non-zero", f.pos(as.Pos()))
+			}
+		}
+		switch {
+		case sameFlag(b0, bn):
+			*f.vars[o] = b0
+		default:
+			bnb, ok := bn.(bool)
+			if !ok || bnb {
+				f.gi.fail("%s: flag update under a symbolic digit not of the form `flag = false when the digit is non-zero`", f.pos(as.Pos()))
+			}
+			switch x := b0.(type) {
+			case bool:
+				if x {
+					*f.vars[o] = &gZeroIff{z: map[string]bool{d.name: true}}
+				} else {
+					*f.vars[o] = false
+				}
+			case *gZeroIff:
+				if x.neg {
+					f.gi.fail("%s: negated flag", f.pos(as.Pos()))
+				}
+				*f.vars[o] = &gZeroIff{z: unionSyms(x.z, map[string]bool{d.name: true})}
+			}
+		}
+	}
+	f.cont = false
 }
 
 func (f *gFrame) assign(l ast.Expr, v interface{}, define bool) {
@@ -620,6 +911,24 @@ func (f *gFrame) assign(l ast.Expr, v interface{}, define bool) {
 			o = f.info.Uses[x]
 		}
 		if p, ok := f.vars[o]; ok && !define {
+			if bv, isBool := v.(bool); isBool && len(f.condSyms) > 0 {
+				if bv {
+					f.gi.fail("%s: a flag is set to true under a symbolic condition", f.pos(l.Pos()))
+				}
+				all := map[string]bool{}
+				for _, cs := range f.condSyms {
+					all = unionSyms(all, cs)
+				}
+				switch cur := (*p).(type) {
+				case bool:
+					if cur {
+						*p = &gZeroIff{z: all}
+					}
+				case *gZeroIff:
+					*p = &gZeroIff{z: unionSyms(cur.z, all)}
+				}
+				return
+			}
 			*p = v
 			return
 		}
@@ -732,14 +1041,84 @@ func (f *gFrame) stmt(s ast.Stmt) {
 		if x.Init != nil {
 			f.stmt(x.Init)
 		}
-		c, ok := f.eval(x.Cond).(bool)
-		if !ok {
-			f.gi.fail("%s: condition %s depends on the scalar (symbolic)", f.pos(x.Cond.Pos()), exprString(x.Cond))
-		}
-		if c {
+		cv := f.eval(x.Cond)
+		switch c := cv.(type) {
+		case bool:
+			if c {
+				f.block(x.Body)
+			} else if x.Else != nil {
+				f.stmt(x.Else)
+			}
+		case *gBitsNonzero:
+			// `if bits > 0 { B }`: B runs on the general state; it must be a no-op on every accumulator when all the window
+			// bits are zero (then skipping it is the same); flags cleared inside become "true iff ... and bits == 0"
+			if x.Else != nil {
+				f.gi.fail("%s: else arm of a window-bits test not modelled", f.pos(x.Pos()))
+			}
+			syms := bitsSyms(c.bits)
+			pre := f.snapshot()
+			f.condSyms = append(f.condSyms, syms)
 			f.block(x.Body)
-		} else if x.Else != nil {
-			f.stmt(x.Else)
+			f.condSyms = f.condSyms[:len(f.condSyms)-1]
+			if f.done || f.brk || f.cont {
+				f.gi.fail("%s: control leaves the body of a window-bits test", f.pos(x.Pos()))
+			}
+			for p, before := range pre.points {
+				if len(polySub(polyDrop(p.e, syms), polyDrop(before, syms)).ms) != 0 {
+					panic(gexpWrong{fmt.Sprintf("%s: the body of `if %s` changes an accumulator even when the window bits are all zero", f.pos(x.Pos()), exprString(x.Cond))})
+				}
+			}
+		case *gZeroIff:
+			// a flag that is true exactly when all symbols of Z are zero (nothing has been added yet). The arm for
+			// flag == false is the general case; under Z := 0 both arms must have the same effect on every accumulator.
+			var armTrue, armFalse ast.Stmt = x.Body, x.Else
+			if c.neg {
+				armTrue, armFalse = x.Else, x.Body
+			}
+			run := func(st ast.Stmt) {
+				if st != nil {
+					f.stmt(st)
+				}
+				if f.done || f.brk || f.cont {
+					f.gi.fail("%s: control leaves an arm of a flag test", f.pos(x.Pos()))
+				}
+			}
+			pre := f.snapshot()
+			zero := func() {
+				for p, before := range pre.points {
+					p.e = polyDrop(before, c.z)
+				}
+			}
+			zero()
+			run(armTrue)
+			a := map[*gPoint]*Poly{}
+			for p := range pre.points {
+				a[p] = polyDrop(p.e, c.z)
+			}
+			flagsTrue := map[types.Object]interface{}{}
+			for o := range pre.vars {
+				flagsTrue[o] = *f.vars[o]
+			}
+			f.restore(pre)
+			zero()
+			run(armFalse)
+			for p := range pre.points {
+				if len(polySub(polyDrop(p.e, c.z), a[p]).ms) != 0 {
+					panic(gexpWrong{fmt.Sprintf("%s: when the flag `%s` is set (nothing added yet: %d symbols zero) its two arms differ: [%s] versus [%s]", f.pos(x.Pos()), exprString(x.Cond), len(c.z), gexpPolyString(a[p]), gexpPolyString(polyDrop(p.e, c.z)))})
+				}
+			}
+			f.restore(pre)
+			run(armFalse)
+			// flags: an arm for flag == true that clears the flag itself leaves it false in every case
+			for o, v0 := range pre.vars {
+				if z0, ok := v0.(*gZeroIff); ok && sameFlag(z0, &gZeroIff{z: c.z}) {
+					if ft, ok := flagsTrue[o].(bool); ok && !ft && sameFlag(*f.vars[o], z0) {
+						*f.vars[o] = false
+					}
+				}
+			}
+		default:
+			f.gi.fail("%s: condition %s depends on the scalar (symbolic)", f.pos(x.Cond.Pos()), exprString(x.Cond))
 		}
 	case *ast.ForStmt:
 		if x.Init != nil {
@@ -924,12 +1303,14 @@ func (eng *Engine) VerifyGexp(key string) (obs []ringObl, err error) {
 		return nil, fmt.Errorf("no #gexp contract for %s", key)
 	}
 	gi := &gInterp{eng: eng, tables: map[string]*gTableSpec{}, syms: map[string]*Term{}}
-	scalarName, baseName := "", ""
+	scalarName, baseName, nafName := "", "", ""
 	for _, raw := range ct.Raw {
 		fs := strings.Fields(raw)
 		switch fs[0] {
 		case "gexp_base":
 			baseName = fs[1]
+		case "gexp_naf":
+			nafName = fs[1]
 		case "gexp_scalar":
 			scalarName = fs[1]
 		case "gexp_table":
@@ -979,8 +1360,14 @@ func (eng *Engine) VerifyGexp(key string) (obs []ringObl, err error) {
 		for _, n := range paramNames(fi) {
 			if n == scalarName {
 				args = append(args, gScalar{})
+			} else if n == nafName && nafName != "" {
+				args = append(args, gScalar{})
 			} else if n == baseName {
-				args = append(args, &gPoint{polyConst(big.NewInt(1))})
+				if nafName != "" {
+					args = append(args, &gPoint{gi.sym("PB")})
+				} else {
+					args = append(args, &gPoint{polyConst(big.NewInt(1))})
+				}
 			} else {
 				args = append(args, gNil{})
 			}
@@ -1005,6 +1392,12 @@ func (eng *Engine) VerifyGexp(key string) (obs []ringObl, err error) {
 	}
 	if gi.byteLoop {
 		want = gi.sym("V")
+	}
+	if nafName != "" {
+		// [g]G + [s]P with s = sum_i d_i 2^i (lemma: the recoding's digits represent the scalar; stand-in in C20)
+		for i := 0; i < gi.nafDigits; i++ {
+			want = polyAdd(want, polyScale(polyMul(gi.sym(fmt.Sprintf("d%d", i)), gi.sym("PB")), new(big.Int).Lsh(big.NewInt(1), uint(i))))
+		}
 	}
 	diff := polySub(pt.e, want)
 	if len(diff.ms) == 0 {
